@@ -6,7 +6,7 @@ use super::{IteratorOutput, iter_output_to_result};
 use crate::{KIteratorOutput as Output, Result, prelude::*};
 
 /// A double-ended peekable iterator for Koto
-#[derive(Clone, KotoCopy, KotoType)]
+#[derive(Clone, KotoType)]
 #[koto(runtime = crate)]
 pub struct Peekable {
     iter: KIterator,
@@ -76,6 +76,20 @@ impl Peekable {
         };
 
         Ok(IteratorOutput::from(peeked).into())
+    }
+}
+
+impl KotoCopy for Peekable {
+    fn copy(&self) -> KObject {
+        // The wrapped iterator is copied so that the copy can be advanced independently
+        let iter = self.iter.make_copy().unwrap_or_else(|_| self.iter.clone());
+
+        Self {
+            iter,
+            peeked_front: self.peeked_front.clone(),
+            peeked_back: self.peeked_back.clone(),
+        }
+        .into()
     }
 }
 
